@@ -20,6 +20,8 @@ pub struct RecSched {
     change_points: Vec<u32>,
     // RR state
     last: usize,
+    // stall state: (thread, choice index until which it is set aside)
+    stalled: Vec<(usize, u32)>,
     // switch-replay state
     sw_idx: usize,
     record: bool,
@@ -46,6 +48,7 @@ impl RecSched {
             next_low: 1 << 20,
             change_points,
             last: 0,
+            stalled: Vec::new(),
             sw_idx: 0,
             record,
         }
@@ -95,6 +98,24 @@ impl RecSched {
                     }
                 }
                 *ids.iter().min_by_key(|i| (self.prio[**i], **i)).unwrap()
+            }
+            SchedKind::Stall { per_mille, max_len } => {
+                self.stalled.retain(|(_, until)| *until > choice_idx);
+                if let Some(c) = cur {
+                    if ids.contains(&c) && !self.stalled.iter().any(|(t, _)| *t == c) && self.rng.below(1000) < per_mille as u64 {
+                        let len = 1 + self.rng.below(max_len.max(1) as u64) as u32;
+                        self.stalled.push((c, choice_idx + len));
+                    }
+                }
+                let free: Vec<usize> = ids.iter().copied().filter(|i| !self.stalled.iter().any(|(t, _)| t == i) && !(yielding && Some(*i) == cur)).collect();
+                if free.is_empty() {
+                    // everything runnable is set aside (or yielding): release the earliest
+                    let pick = ids.iter().copied().min_by_key(|i| self.stalled.iter().find(|(t, _)| t == i).map(|(_, u)| *u).unwrap_or(0)).unwrap();
+                    self.stalled.retain(|(t, _)| *t != pick);
+                    pick
+                } else {
+                    free[self.rng.usize(free.len())]
+                }
             }
             SchedKind::RoundRobin => {
                 let start = if yielding { cur.map(|c| c + 1).unwrap_or(0) } else { cur.unwrap_or(self.last) };
